@@ -28,12 +28,27 @@ THEOREMS = [
     (M, "C13.env_override", "ProjectConfig.environ after processEnv: parser env (-D) wins over the file's [env], file-only variables survive"),
     (M, "C13.literal_contract_witness", "witness for the Matcher contract in PrefixOK: a matcher flagged wildcard-free that matches more than its prefix is cut short by the isfile(prefix) shortcut"),
     (M, "C13.dup_env_witness", "F14 witness: same pattern text, different [env] value: the earlier rule is dropped as duplicate and its file is not enumerated"),
+    # ---- C13M: the Matcher contracts discharged on the Matcher MODEL (ProjectFilesM = ProjectFiles on pattern texts)
+    (M, "C13M.prefix_contract", "ProjectFilesM: for a matcher table built from pattern texts, every path a matcher matches starts with its prefix (PrefixOK part (a), discharged by C12 match_has_prefix)"),
+    (M, "C13M.literal_contract", "ProjectFilesM: a wildcard-free, fully bound pattern matches nothing but its own expansion, which is its prefix (PrefixOK part (c): what the isfile(prefix) shortcut of _files relies on)"),
+    (M, "C13M.literal_matches_expansion_partial", "… and it does match that expansion (no variable occurs twice, restriction of C12 matches_own_expansion_partial)"),
+    (M, "C13M.literal_unbound_witness", "witness: the 'fully bound' hypothesis of the literal contract is forced: Matcher('/l/{v}') is wildcard-free, has prefix '/l/' and matches '/l/x'"),
+    (M, "C13M.sub_contract_partial", "ProjectFilesM: for a reference/l10n pattern pair in the class of C11 sub_roundtrip_star_partial, on a filled path: the reference matcher matches it, sub gives the l10n path, the l10n matcher matches that (SubMatches), and sub maps it back"),
+    (M, "C13M.prefixOK_M", "ProjectFilesM: PrefixOK holds for the computed relation as soon as the prefix contains '/' and a wildcard-free pattern is fully bound"),
+    (M, "C13M.newM_spec", "ProjectFilesM.newM = PF.new on the relation computed from the texts; iterM/matchM = the model's enumeration/lookup unless a sub call raised"),
+    (M, "C13M.iter_complete_M_partial", "ProjectFilesM: iter_complete_partial with PrefixOK discharged: left are rooted prefixes, 'wildcard-free => fully bound' and duplicates-are-duplicates (F14)"),
+    (M, "C13M.last_rule_wins_M_partial", "ProjectFilesM: last_rule_wins_partial with PrefixOK discharged and SubMatches replaced by the pattern class on the reference files of the tree; F14 hypothesis kept"),
+    (M, "C13M.iter_eq_match_M_partial", "ProjectFilesM: enumeration = lookup for an existing localized file, PrefixOK discharged, SubMatches replaced by the pattern class"),
+    (M, "C13M.validation_complete_M", "ProjectFilesM: validation mode yields every existing reference file a reference matcher matches (PrefixOK discharged)"),
+    (M, "C13M.sub_class_witness", "witness: outside the sub class (reference '/r/**', l10n '/l/*') the enumeration yields '/l/a/b.ftl' while match('/l/a/b.ftl') is None"),
 ]
 PARTIAL = [
     "iter_complete_partial / last_rule_wins_partial need 'duplicates are duplicates' (matchers identified by the duplicate scan cover the same paths); false when two configs use the same pattern text with different [env] values after the first wildcard (known finding F14, witness dup_env_witness)",
     "completeness, last_rule_wins_partial and iter_eq_match assume PrefixOK, three contracts of Matcher (C12), none about the tree: matched paths start with the prefix string, the prefix is rooted, a wildcard-free pattern matches its prefix only (witness literal_contract_witness shows what the shortcut does otherwise); the harness tabulates the real Matcher and asserts nothing beyond it",
     "iter_eq_match_ref_partial covers reference-only files (the l10n partner does not exist); lookups by reference path whose l10n partner exists need the exact sub round trip of Matcher (C12) and are covered by the correspondence + oracle only",
     "iter_eq_match and last_rule_wins_partial assume the Matcher.sub round trip (SubMatches: the l10n path computed from a reference match is matched by the l10n matcher) — a Matcher property (C12), checked on every generated project by the harness-side tables",
+    "C13M (ProjectFilesM: the abstract matcher instantiated with the Matcher MODEL of C11/C12, matchers given as pattern texts): PrefixOK (a) and (c) are PROVED (prefix_contract, literal_contract); what is left as hypotheses of the restated theorems is: the prefix contains a '/' (decidable per matcher), a wildcard-free pattern has all its variables bound (forced: literal_unbound_witness), the F14 hypothesis hdup (unchanged), and — instead of SubMatches — SubClassOn: every reference FILE of the tree that a rule's reference matcher matches is a well-separated filling for which reference and l10n pattern are in the class of C11 sub_roundtrip_star_partial (top-level literals, *, **/, final **, first occurrences of fully bound variables, no {android_locale}); outside that class the round trip is false in general (sub_class_witness, C11 roundtrip_separator_witness) and is covered by correspondence + oracle only",
+    "C13M supported class of the composed model: every matcher has a prefix, a compiling regex and no {android_locale} group (then match cannot raise, usable_match_ok); other tables are reported as unsupported by newM and skipped (counted) by the correspondence stream; a sub call that raises inside the class surfaces as MErr.sub",
     "TOML syntax -> ProjectConfig is toml's; the model starts at the object graph (TOMLParser fields are checked against the generated TOML by construction); only processEnv's dict.update order is modelled (env_override)",
 ]
 TRUSTED = [
@@ -41,6 +56,7 @@ TRUSTED = [
     "Matcher is abstract: prefix, realpath(prefix), pattern equality class, match relation and sub images are tabulated by the harness from the REAL Matcher objects for every path of the finite universe (files of the tree in os.walk order + ~12 absent paths + the l10n partners of reference paths); matchers are bound to the locale by the harness the way __init__ does (with_env)",
     "os.walk(base)+mozpath.join modelled as: the files whose path starts with base read as a directory (prefixes contain no '//', '.', '..' segments: asserted on every project), nothing for base ''; os.path.isfile = membership in the file list; dict = insertion-ordered association list; sorted = insertion sort on the unique keys",
     "the fused call: Matcher.sub(other, p) re-runs the pure Matcher.match(p) that _files/match just evaluated; the model reuses that result",
+    "C13M: hand-written composition CLModel/Paths/ProjectFilesM.lean (MEnv computed from PM.Matcher: match relation, sub via an injective code of (matcher, path) — decode_encode proved —, prefix, literal, Pattern equality classes, realpath(prefix) = trailing slashes stripped) tied to the real ProjectFiles by the `pfm.run` correspondence: the matcher table is sent as TEXTS (pattern, env, root, with_env binding; the temp root cut off like in the results; re-parsing the texts with the real Matcher must give the same Pattern/env back) and the result string is compared with the real enumeration + lookups",
 ]
 ASSUMPTIONS = [
     "path rules are rooted (config root or absolute {l10n_base}); no symlinks in the tree; file names without newline",
@@ -53,7 +69,9 @@ LEVEL_TEXT = ("Lean 4 theorems over an executable transliteration of ProjectFile
               "explicit hypotheses with negation witnesses; parser env overrides file env. The model is tied to the Python by differential runs of "
               "generated TOML projects in real temp directories (all locales + reference validation mode, every file and ~12 absent paths looked up), "
               "and an oracle that knows the covered set by construction judges the implementation independently of the model")
-LEVEL_NOTE = ("trusted: Lean kernel; hand-written model validated by correspondence; Matcher abstract (tables from the real Matcher; Matcher itself is C11/C12); "
+LEVEL_NOTE = ("trusted: Lean kernel; hand-written model validated by correspondence; Matcher abstract (tables from the real Matcher; Matcher itself is C11/C12) in the C13.* "
+              "theorems and COMPUTED from the Matcher model in the C13M.* theorems (ProjectFilesM, second correspondence stream on pattern texts), where the Matcher contracts "
+              "PrefixOK (a)/(c) are proved and only 'prefix contains /', 'wildcard-free => fully bound', the sub pattern class of C11 and F14 remain; "
               "TOML syntax is toml's. Findings F7, F15 and F16 of the earlier rounds are fixed in /repo and their hypotheses are gone. Completeness / "
               "last-rule-wins still need 'duplicates are duplicates' (known finding F14, re-discovered by the oracle in every run with a concrete "
               "project and mirrored by a Lean negation witness); the other hypotheses are contracts of Matcher (C12)")
@@ -295,6 +313,7 @@ def run(ctx):
     out.count("random.projects", nrand)
     res = pool.pmap("impl.projfiles", "run_case", [[s] for s in specs], timeout=20.0, batch=8)
     lines, owners = [], []
+    mlines, mowners = [], []
     for i, r in enumerate(res):
         if "r" not in r:
             out.violations.append({"what": "harness adapter raised %s: %s %s" % (r.get("exc"), r.get("msg"), r.get("where")),
@@ -303,7 +322,27 @@ def run(ctx):
         for j, l in enumerate(r["r"]["lines"]):
             lines.append(l)
             owners.append((i, j))
+        for j, l in enumerate(r["r"]["mlines"]):
+            if l is None:
+                out.count("composed.skipped.unwritable-matcher")
+            else:
+                mlines.append(l)
+                mowners.append((i, j))
     model = C.run_driver_parallel(lines) if ctx.model_ok else [None] * len(lines)
+    # second stream: the composed model ProjectFilesM (matchers as pattern texts, relation computed by the Matcher model)
+    mmodel = C.run_driver_parallel(mlines) if ctx.model_ok else [None] * len(mlines)
+    mbad = {}
+    for (i, j), mo in zip(mowners, mmodel):
+        if mo is None:
+            continue
+        canon = res[i]["r"]["impl"][j]
+        if mo.startswith("unsupported:"):
+            out.count("composed.skipped." + mo.split(":", 1)[1].split("-")[0])
+            continue
+        out.evaluations += 1
+        out.count("composed.compared")
+        if mo != canon:
+            mbad.setdefault(i, []).append({"locale": res[i]["r"]["locales"][j], "impl": canon[:1500], "model": mo[:1500]})
     per_case_bad = {}
     for (i, j), mo in zip(owners, model):
         r = res[i]["r"]
@@ -337,6 +376,8 @@ def run(ctx):
                 out.count("oracle.%s" % (fid or "unclassified"))
         elif i in per_case_bad:
             out.disagreements.append({"op": "pf.run", "spec": specs[i], "diff": per_case_bad[i][:2]})
+        elif i in mbad:
+            out.disagreements.append({"op": "pfm.run", "spec": specs[i], "diff": mbad[i][:2]})
         if len(out.samples) < 6 and rr["stats"].get("items", 0) > 6 and not rr["violations"]:
             out.samples.append({"spec": {k: specs[i][k] for k in ("projects", "files", "parser_env", "mergebase")},
                                 "configs": {c: PFI.toml_of(specs[i], c) for c in specs[i]["configs"]},
@@ -347,6 +388,23 @@ def run(ctx):
         (rest if v["finding"] in seen else lead).append(v)
         seen.add(v["finding"])
     out.violations = lead + rest
+    # probes at the excluded points of the C13M theorems (negation witnesses): real code vs composed model, and what the code does
+    pnames = sorted(PFI.PROBES)
+    pres = pool.pmap("impl.projfiles", "run_probe", [[n] for n in pnames], timeout=20.0)
+    pl = [(n, r["r"]) for n, r in zip(pnames, pres) if "r" in r and r["r"]["mline"] is not None]
+    for n, r in zip(pnames, pres):
+        if "r" not in r:
+            out.violations.append({"what": "probe %s: adapter raised %s: %s" % (n, r.get("exc"), r.get("msg")), "input": {"probe": n}, "finding": None})
+    pmodel = C.run_driver_parallel([r["mline"] for _, r in pl]) if ctx.model_ok else [None] * len(pl)
+    for (n, r), mo in zip(pl, pmodel):
+        out.evaluations += 1
+        if mo is not None and mo != r["impl"]:
+            out.disagreements.append({"op": "pfm.run", "probe": n, "impl": r["impl"][:800], "model": mo[:800]})
+        if n == "sub-class":
+            shown = "/l/a/b.ftl" in r["paths"] and r["looks"].get("/l/a/b.ftl") is None
+        else:
+            shown = r["paths"] == [] and r["looks"].get("/l/xy") is not None
+        out.count("probe.%s.%s" % (n, "code-behaves-like-the-witness" if shown else "code-differs-from-the-witness"))
     # env override: model of processEnv vs dict semantics (the real TOMLParser is checked inside run_case)
     ecases = []
     for _ in range(ctx.n(300, 3000)):
